@@ -106,7 +106,7 @@ Section provenance.
   Variable F : ftable.
 
   Definition from_fallible (er : errv) : Prop :=
-    exists fd, nth_error F (N.to_nat (er_fn er)) = Some fd /\ fd_err fd = true.
+    er_fn er = ENUM_ERR \/ exists fd, nth_error F (N.to_nat (er_fn er)) = Some fd /\ fd_err fd = true.   (* an enum switch with @error, or a fallible custom function *)
   Definition prov_v (ev : vplan -> val -> N -> outcome (val * N)) : Prop :=
     forall p src st er, ev p src st = Errored er -> from_fallible er.
   Definition prov_a (ea : aplan -> val -> val -> N -> outcome (val * N)) : Prop :=
@@ -133,7 +133,7 @@ Section provenance.
     forall cx, prov_v (eval_v e M F (S f) cx).
   Proof.
     intros IHv IHa cx.
-    intros p src st er H. rewrite eval_v_S in H. destruct p as [| |al q|m|c args fl|t a|ini tp a|el a].
+    intros p src st er H. rewrite eval_v_S in H. destruct p as [| |al q|m|c args fl|t a|ini tp a|el a|ini t cases dflt].
       + discriminate.
       + discriminate.
       + destruct (eval_v e M F f cx q src st) as [[r st1]| | | |] eqn:E; cbn [obind] in H; try discriminate.
@@ -146,7 +146,7 @@ Section provenance.
       + destruct (negb (args_ok cx args)); [discriminate|]. cbv zeta in H. destruct c as [fi|m].
         * destruct (nth_error F (N.to_nat fi)) as [fd|] eqn:Ef; [|discriminate].
           destruct (fd_err fd && fn_fails fi _) eqn:Eb.
-          -- injection H as <-. apply andb_true_iff in Eb as [Efe _]. exists fd. split; [exact Ef|exact Efe].
+          -- injection H as <-. apply andb_true_iff in Eb as [Efe _]. right. exists fd. split; [exact Ef|exact Efe].
           -- destruct (mark e 60 _ _ st) as [[v1 st1] ok]. discriminate.
         * destruct (nth_error M (N.to_nat m)) as [mt|]; [|discriminate].
           destruct (body_plan mt) as [[p' wr]|]; try discriminate.
@@ -157,6 +157,11 @@ Section provenance.
         * destruct tp; eapply IHa; exact H.
         * injection H as <-. eapply IHv. exact E.
       + destruct src; try discriminate. eapply IHa. exact H.
+      + destruct ini as [[ip tp]|].
+        * destruct (eval_v e M F f cx ip src st) as [[v1 s2]| | | |] eqn:E; cbn [obind] in H; try discriminate.
+          -- destruct tp; cbn [obind] in H; (destruct src; try discriminate; destruct (enum_action cases dflt z); try discriminate; injection H as <-; left; reflexivity).
+          -- injection H as <-. eapply IHv. exact E.
+        * cbn [obind] in H. destruct src; try discriminate. destruct (enum_action cases dflt z); try discriminate. injection H as <-. left. reflexivity.
   Qed.
 
   Lemma prov_step_a f : (forall cx, prov_v (eval_v e M F f cx)) -> (forall cx, prov_a (eval_a e M F f cx)) ->
